@@ -72,6 +72,7 @@ var (
 type channel struct {
 	refs  atomic.Int32 // 2 by default (1 for user, 1 for connection)
 	freed atomic.Bool  // ensures public free is called once
+	freec atomic.Bool  // ensures the connection reference is released once
 
 	state atomic.Pointer[channelState]
 }
@@ -279,7 +280,11 @@ func (ch *channel) Free() {
 
 // receive is called by the connection to receive a message.
 func (ch *channel) receive(msg pmpx.Message) status.Status {
-	s := ch.acquire()
+	// The channel can be freed between the map lookup and this call, drop the message then
+	s, ok := ch.tryAcquire()
+	if !ok {
+		return status.OK
+	}
 	defer ch.release()
 
 	// Ignore messages if closed
@@ -293,6 +298,11 @@ func (ch *channel) receive(msg pmpx.Message) status.Status {
 
 // free is called by the connection to free the channel.
 func (ch *channel) free() {
+	// The send loop, the receive loop and the connection close can all free a channel
+	if ok := ch.freec.CompareAndSwap(false, true); !ok {
+		return
+	}
+
 	s := ch.state.Load()
 	if s == nil {
 		panic("free of freed channel")
@@ -316,6 +326,25 @@ func (ch *channel) acquire() *channelState {
 		panic("acquire of freed channel")
 	}
 	return s
+}
+
+// tryAcquire increments the refcounter unless the channel is already freed.
+func (ch *channel) tryAcquire() (*channelState, bool) {
+	for {
+		refs := ch.refs.Load()
+		if refs <= 0 {
+			return nil, false
+		}
+		if !ch.refs.CompareAndSwap(refs, refs+1) {
+			continue
+		}
+
+		s := ch.state.Load()
+		if s == nil {
+			panic("acquire of freed channel")
+		}
+		return s, true
+	}
 }
 
 // release decrements the internal refs counter.
